@@ -354,7 +354,7 @@ class Ledger(Monitor):
         pol = self.m.retry_policy(e.task)
         if pol is None:
             return False, "no retry policy"
-        ctxv = {k: v.value for k, v in e.ectx.items()} if e.ectx is not None else (e.octx or {})
+        ctxv = dict(e.octx) if e.octx is not None else {k: v.value for k, v in (e.ectx or {}).items()}
         cnt = pol["count"]
         if isinstance(cnt, tuple):
             cnt = ctxv.get(cnt[1])
@@ -501,7 +501,9 @@ class Ledger(Monitor):
         self.nfinish += 1
         e.finish_no = self.nfinish
         self.open.pop((e.task, e.route), None)
-        ctxv = {k: v.value for k, v in e.ectx.items()} if e.ectx is not None else dict(e.octx or {})
+        # conditions and publishes are evaluated against the context the execution was *offered*
+        # (a wrong offered context is reported once, where it is offered, not again downstream)
+        ctxv = dict(e.octx) if e.octx is not None else {k: v.value for k, v in (e.ectx or {}).items()}
         any_task_target = False
         handled = False
         fail_here = False
@@ -575,6 +577,7 @@ class Ledger(Monitor):
                 if j["fired"] > 0 and not m.in_cycle(target):
                     # an arrival after the barrier was already satisfied and consumed
                     j["late"] += 1
+                    run.tags.add("late_arrival_int_join")
                 j["arr"].append((e, tr, ob))
                 self.stats["join_arrivals"] += 1
                 after = len(set(a[0].task for a in j["arr"]))
